@@ -52,6 +52,7 @@ def main (args : List String) : IO UInt32 := do
     | "C15" => genC15 t s o
     | "C14" => genC14 t s o
     | "C19" => genC19 t s o
+    | "C19g" => genC19g t s o
     | _ => IO.eprintln s!"unknown property {prop}"; return 2
     o.flush
     return 0
